@@ -55,6 +55,37 @@ def hand_ctx(x: fp.Real, y: fp.Real, xs: list[fp.Real], k: fp.Real):
         with fp.IEEEContext(3, 6):
             v1 = v1 + hand_ctx_inherit(e)
     return (p, q, r, v1)''',
+    'hand_nested_call': '''@fp.fpy
+def hand_nested_call_bump(zs: list[fp.Real], a: fp.Real) -> fp.Real:
+    zs[0] = zs[0] + a
+    return zs[0]
+
+@fp.fpy
+def hand_nested_call_comb(a: fp.Real, b: fp.Real) -> fp.Real:
+    return a * 4 + b
+
+@fp.fpy
+def hand_nested_call(x: fp.Real, y: fp.Real, xs: list[fp.Real], k: fp.Real):
+    ys = [x, y]
+    r = hand_nested_call_comb(ys[0], hand_nested_call_bump(ys, 3))
+    for e in xs:
+        r = r + hand_nested_call_comb(ys[0], hand_nested_call_bump(ys, e))
+    return (r, ys)''',
+    'hand_own_ctx': '''@fp.fpy(ctx=fp.IEEEContext(3, 6, fp.RM.RNE))
+def hand_own_ctx(x: fp.Real, y: fp.Real, xs: list[fp.Real], k: fp.Real):
+    a = x / 3 + y * 1.1
+    for e in xs:
+        a = a + e / 3
+    return a''',
+    'hand_lift_dep': '''@fp.fpy
+def hand_lift_dep(x: fp.Real, y: fp.Real, xs: list[fp.Real], k: fp.Real):
+    p = 2
+    for e in xs:
+        with fp.MPFloatContext(p + 1):
+            x = x + e * 1.25
+        with fp.MPFixedContext(-k):
+            y = y + e / 3
+    return (x, y)''',
     'hand_capture': '''@fp.fpy
 def hand_capture(x: fp.Real, y: fp.Real, xs: list[fp.Real], k: fp.Real):
     with fp.MPFloatContext(3):
@@ -63,7 +94,7 @@ def hand_capture(x: fp.Real, y: fp.Real, xs: list[fp.Real], k: fp.Real):
 }
 
 
-def list_read_before_mutating_call(fn) -> bool:
+def list_read_before_mutating_call(fn, call_parents: bool = False) -> bool:
     """Is there an expression whose earlier operand reads a list (xs[i], sum(xs), len(xs) ...) that a later operand
     passes to an FPy callee which writes to that parameter?  (The shape of known finding F13.)"""
     from fpy2.ast import fpyast as A
@@ -125,7 +156,8 @@ def list_read_before_mutating_call(fn) -> bool:
         return out
 
     def walk(n):
-        if isinstance(n, A.Expr):
+        is_call = isinstance(n, A.Call) and isinstance(n.fn, Function)
+        if isinstance(n, A.Expr) and (is_call if call_parents else not is_call):
             ops = list(kids(n))
             for j in range(1, len(ops)):
                 m = mutated_lists(ops[j])
@@ -174,12 +206,13 @@ def run(tier: str) -> int:
             for n, f in funcs.items():
                 progs.append((n, f, srcs[n]))
         shapes = {n: list_read_before_mutating_call(f) for (n, f, _) in progs}
+        shapes_arg = {n: list_read_before_mutating_call(f, call_parents=True) for (n, f, _) in progs}
         pairs, timeouts = equiv.make_pairs(progs, configs_general(), rng, nvec, stats)
         # pinned caller contexts: original evaluated with that context
         for C in (fp.MPFloatContext(3), fp.MPFixedContext(-1, fp.RM.RTZ), fp.IEEEContext(3, 6, fp.RM.RTP)):
             cfgs = [(f'monomorphize[{type(C).__name__}]', lambda f, C=C: fp.strategies.monomorphize(f, ctx=C)),
                     (f'monomorphize;simplify[{type(C).__name__}]', lambda f, C=C: fp.strategies.simplify(fp.strategies.monomorphize(f, ctx=C)))]
-            sub = progs[:: (1 if tier == 'thorough' else 2)]
+            sub = [q for q in progs if q[0].startswith('hand_')] + [q for q in progs if not q[0].startswith('hand_')][:: (1 if tier == 'thorough' else 2)]
             p2, t2 = equiv.make_pairs(sub, cfgs, rng, max(4, nvec // 2), stats, vectors_fn=vectors_fixed_ctx(C), pid0=len(pairs) + 1000)
             # renumber to keep pids unique
             for (o, x, m) in p2:
@@ -193,6 +226,9 @@ def run(tier: str) -> int:
     def key(meta, clause):
         if 'inline' in meta['config'] and shapes.get(meta['program']):
             return {'shape': 'list-read-before-inlined-mutating-call'}
+        if meta['config'].startswith('inline[where=') and shapes_arg.get(meta['program']):
+            # partial inlining: the enclosing call stays, its earlier argument is read after the spliced body
+            return {'shape': 'list-read-argument-before-partially-inlined-mutating-call'}
         return {}
     equiv.report(rep, pairs, timeouts, mm, skips, stats, extra_key=key)
     rep.cov['distinct_nontrivial'] = len({(m['program'], m['xsrc']) for (_, _, m) in pairs})
